@@ -350,12 +350,23 @@ def r11_5_fresh_graph(ctx):
         t = c.methods.get("__teal__")
         if t is None or not c.module.name.startswith("pyteal.ast"):
             continue
-        for s in walk_local(t.node):
-            tg = s.targets if isinstance(s, ast.Assign) else ([s.target] if isinstance(s, (ast.AugAssign, ast.AnnAssign)) else [])
-            for x in tg:
-                if isinstance(x, ast.Attribute) and u(x.value) == "self":
-                    n += 1
-                    ctx.check(x.attr in TEAL_SELF_WRITES_OK, "R11.5", f"{c.name}.__teal__:self.{x.attr}", f"{c.name}.__teal__ stores `self.{x.attr}`: compiling an expression must not change it (the second compilation of the same object would differ)", f"{t.module.rel}:{s.lineno}", fact={})
+        # __teal__ and every method of the class it reaches through self.<method>(...) (name-mangled private helpers included)
+        reach, todo = {"__teal__": t}, [t]
+        while todo:
+            fm = todo.pop()
+            for call in walk_local(fm.node):
+                if isinstance(call, ast.Call) and isinstance(call.func, ast.Attribute) and u(call.func.value) == "self":
+                    callee = ctx.model.resolve_method(c, call.func.attr)
+                    if callee is not None and call.func.attr not in reach and call.func.attr not in ("type_of", "has_return", "__str__"):
+                        reach[call.func.attr] = callee
+                        todo.append(callee)
+        for mname, fm in reach.items():
+            for s in walk_local(fm.node):
+                tg = s.targets if isinstance(s, ast.Assign) else ([s.target] if isinstance(s, (ast.AugAssign, ast.AnnAssign)) else [])
+                for x in tg:
+                    if isinstance(x, ast.Attribute) and u(x.value) == "self":
+                        n += 1
+                        ctx.check(x.attr in TEAL_SELF_WRITES_OK, "R11.5", f"{c.name}.{mname}:self.{x.attr}", f"{c.name}.{mname} (run by __teal__) stores `self.{x.attr}`: compiling an expression must not change it (a second compilation of the same object - another version, another option set - would differ)", f"{fm.module.rel}:{s.lineno}", fact={})
         ctx.instances["R11.5"] = ctx.instances.get("R11.5", 0) + 1
     f = ctx.model.find_func("Compilation._compile_impl", "pyteal.compiler.compiler")
     co = q.calls_named(f.node, "CompileOptions", into_nested=False)
